@@ -489,7 +489,7 @@ impl Prop for C16 {
         "C16"
     }
     fn cases(&self) -> (u64, u64) {
-        (30_000, 500_000)
+        (120_000, 500_000)
     }
     fn rule(&self) -> &'static str {
         "choice bytes -> broad definition (nested and hidden commands, groups, all wrappers) whose \
